@@ -253,7 +253,8 @@ class InterpBase:
       self.assume(pos >= 0)
       self.assume(pos <= v.src.n)
       v.pos = pos
-      v.dead = z3.Bool(self.path.fresh_name(name + '.dead'))
+      if v.fails is not None:
+        v.dead = z3.Bool(self.path.fresh_name(name + '.dead'))
     elif isinstance(v, VMap):
       m = self.fresh_map('x', 'x', name)
       ks = v.ksort
@@ -290,7 +291,7 @@ class InterpBase:
       return z3.If(v.t, z3.IntVal(1), z3.IntVal(0))
     if isinstance(v, VNoneT):
       if self.spec_mode:
-        return z3.IntVal(0)
+        raise Unsupported('None used as int in a specification')
       self.raise_('TypeError', VStr('None used as int'))
     raise Unsupported(f'to_int({type(v).__name__})')
 
